@@ -15,7 +15,7 @@ EVID_DIR = os.path.join(VERIF, 'evidence')
 OUT_DIR = os.path.join(VERIF, 'out')
 FINDINGS = os.path.join(VERIF, 'known_findings.json')
 PY = '/venv/bin/python'
-NCPU = os.cpu_count() or 4
+NCPU = int(os.environ.get('VERIF_NCPU', '0') or 0) or os.cpu_count() or 4   # VERIF_NCPU: cap for shared machines
 
 
 class MachineryError(Exception):
